@@ -321,7 +321,7 @@ class Check:
                 if key not in [k for k, _ in self.known_hit]:
                     self.known_hit.append((key, f.get('what', what)))
                 return
-        if len(self.violations) < 200:
+        if len(self.violations) < 60:
             rp = None
             if replay_obj is not None or True:
                 rp = os.path.join(REPLAYS, f'{self.pid}_{sha(key)}.json')
